@@ -605,7 +605,7 @@ class VariantBase(productmd.common.MetadataBase):
 
     def _get_all_parents(self):
         result = [self]
-        if self.parent:
+        if self.parent is not None:
             result.extend(self.parent._get_all_parents())
         return result
 
@@ -838,7 +838,7 @@ class Variant(VariantBase):
         self._assert_not_blank("arches")
 
     def _validate_parent_arch(self):
-        if not self.parent:
+        if self.parent is None:
             return
         for arch in self.arches:
             if arch not in self.parent.arches:
